@@ -1085,7 +1085,8 @@ func genFiles(t *rapid.T) Case {
 	w := rapid.SampledFrom([]string{"name", "name", "na.me", "n.a-m_e", "name.v1", "na-me"}).Draw(t, "wanted-name")
 	c := Case{Kind: "files", Dirs: rapid.IntRange(1, 3).Draw(t, "dirs"), Want: w}
 	c.ViaImp = rapid.Bool().Draw(t, "via-import")
-	pool := []string{w + ".yang", w + "@2020-01-01.yang", w + "@2021-06-30.yang", w + "@2019-12-31.yang",
+	// (a date is four, two and two digits: whether the calendar knows the day is not the file chooser's business)
+	pool := []string{w + ".yang", w + "@2020-01-01.yang", w + "@2021-06-30.yang", w + "@2019-12-31.yang", w + "@2021-06-31.yang", w + "@2019-02-29.yang",
 		w + "X@2022-01-01.yang", "X" + w + "@2022-01-01.yang", w + "@2020-1-01.yang", w + "@2023-01-01.yang.bak", w + "@2023-01-01.YANG", w + "-ext@2022-05-05.yang", w + "@2022-01-01x.yang", w + ".yang.orig", w[:len(w)-1] + ".yang", w + "2.yang", w + "@.yang", w + "@20220101.yang",
 		// names that differ from the wanted one in letter case only: other modules' files (module names are case-sensitive)
 		strings.ToUpper(w[:1]) + w[1:] + ".yang", strings.ToUpper(w) + "@2024-05-05.yang", strings.ToUpper(w[:1]) + w[1:] + "@2024-06-06.yang"}
@@ -1127,7 +1128,7 @@ func genFiles(t *rapid.T) Case {
 	for i := 0; i < n; i++ {
 		f := FileSpec{Dir: rapid.IntRange(0, c.Dirs-1).Draw(t, "dir")}
 		if rapid.IntRange(0, 2).Draw(t, "true-candidate") == 0 {
-			f.Name = rapid.SampledFrom(pool[:4]).Draw(t, "file")
+			f.Name = rapid.SampledFrom(pool[:6]).Draw(t, "file")
 		} else {
 			f.Name = rapid.SampledFrom(pool).Draw(t, "file")
 		}
